@@ -206,6 +206,20 @@ func parPhase(w *world, tc *caseT) *mismatch {
 
 const stallBound = 60 * time.Second
 
+// hung counts the concurrent phases of this process that did not come back; as with closeWait, once the batch is
+// failing the remaining cases are only screened (the check reproduces a failure in a fresh process, full bound).
+var hung atomic.Int32
+
+func stallWait() time.Duration {
+	switch n := hung.Load(); {
+	case n >= 6:
+		return 200 * time.Millisecond
+	case n >= 2:
+		return 3 * time.Second
+	}
+	return stallBound
+}
+
 // waitFor waits for the goroutines of the phase; false: they are stuck (and leak: the verdict is out anyway).
 func waitFor(wg *sync.WaitGroup) bool {
 	ch := make(chan struct{})
@@ -213,7 +227,8 @@ func waitFor(wg *sync.WaitGroup) bool {
 	select {
 	case <-ch:
 		return true
-	case <-time.After(stallBound):
+	case <-time.After(stallWait()):
+		hung.Add(1)
 		return false
 	}
 }
